@@ -339,8 +339,11 @@ fn build_respan_block_request<E: FieldElement<BaseField = Felt>>(
         + alphas[2].mul_base(addr_nxt - ONE)
         + alphas[3].mul_base(ZERO);
 
-    let state = &main_trace.chiplet_hasher_state(row - 2)[CAPACITY_LEN..];
-    let state_nxt = &main_trace.chiplet_hasher_state(row - 1)[CAPACITY_LEN..];
+    // the rate is absorbed between the last row of the previous hash cycle and the first row of
+    // the cycle which starts at `addr_nxt` (addresses are 1-based row indexes of the hasher trace)
+    let absorb_row = addr_to_row_index(addr_nxt);
+    let state = &main_trace.chiplet_hasher_state(absorb_row - 1)[CAPACITY_LEN..];
+    let state_nxt = &main_trace.chiplet_hasher_state(absorb_row)[CAPACITY_LEN..];
 
     header + build_value(&alphas[8..16], state_nxt) - build_value(&alphas[8..16], state)
 }
